@@ -944,7 +944,8 @@ func (fr *frame) appendBuiltin(c *ssa.CallCommon, resT types.Type, pos string) V
 	memRe := fr.mem.clone()
 	r := vc.alloc(memRe, fr.pfx+"app")
 	ncap := vc.fresh(fr.pfx+"app.cap", sBV64)
-	vc.assume(and(app("bvule", newLen, ncap), app("bvult", ncap, "#x0001000000000000")))
+	// (a reallocation to half of the address space or more runs out of memory: see makeSlice)
+	vc.assume(implies(not(inplace), and(app("bvule", newLen, ncap), app("bvult", ncap, "#x0000800000000000"))))
 	target := vc.define(fr.pfx+"app.ref", sInt, ite(inplace, app("sarr", s.S), r))
 	fr.mem = vc.mergeMem([]string{inplace, not(inplace)}, []Mem{fr.mem, memRe})
 	vc.set(fr.mem, comp, app("store", vc.get(fr.mem, comp), target, a2))
@@ -1025,6 +1026,14 @@ func (fr *frame) enterLoop(li *loopInfo, fwdPreds []int) {
 	invs := fr.loopClauses(li, "invariant")
 	if len(invs) == 0 {
 		vc.note(fmt.Sprintf("loop %d of %s: default invariant true", li.ordinal, fr.fn))
+		if fr.depth > 0 && vc.P.inModule(fr.fn) && !inTranslator(vc.P, fr.fn) {
+			// (library packages only: translator functions are verified for rejection and
+			// crash-freedom, where a loop of a helper without invariant only loses precision)
+			// a loop inside a helper that is inlined into the function under contract: there is no
+			// invariant for it (contracts are keyed by function), so the caller's functional clauses
+			// cannot be decided -- unless the helper gets a contract of its own
+			vc.undecided = fmt.Sprintf("the helper %s (no contract, inlined) contains a loop; without an invariant for it the contract of the caller cannot be decided", fr.fn)
+		}
 	}
 	for _, cl := range fr.loopClauses(li, "ghost_init") {
 		// ghost variable reset to its zero value on entry of the loop
@@ -1635,6 +1644,10 @@ func (fr *frame) atCall(callee *ssa.Function, ins ssa.Instruction) {
 	if !fr.top || fr.con == nil {
 		return
 	}
+	if fr.vc.callsSeen == nil {
+		fr.vc.callsSeen = map[string]bool{}
+	}
+	fr.vc.callsSeen[callee.Name()], fr.vc.callsSeen[callee.String()] = true, true
 	for _, cl := range fr.con.clauses("at_call") {
 		if cl.Name != callee.Name() && cl.Name != callee.String() {
 			continue
